@@ -59,6 +59,7 @@ def required(tier):
         "with_subdirectories": 30,
         "with_keyword": 20,
         "with_action_names": 30,
+        "with_ignore_case": 20,
     }
     for s in SHAPES:
         d["shape." + s] = 10
@@ -159,6 +160,9 @@ def gen_modular(rng):
             if f != "root":
                 dirs[f] = rng.choice(["", "sub", "sub", "sub/deep", "other"])
         feats.add("subdirs")
+    if rng.random() < 0.15:
+        # an option of the load (from_file(..., ignore_case=True)) holds for every file
+        feats.add("ignore_case")
     tagged = set()
     if rng.random() < 0.25:
         # rules carrying an action name (@tag) in the grammar; the parsers get actions={"tag": ...}
@@ -326,8 +330,9 @@ def run(ctx):
         mon.uninstall()
 
 
-def load_modular(texts, dirs=None, actions=None):
+def load_modular(texts, dirs=None, actions=None, ignore_case=False):
     kw = {"actions": actions} if actions else {}
+    gkw = {"ignore_case": True} if ignore_case else {}
     d = tempfile.mkdtemp(prefix="pgv-c20-")
     dirs = dirs or {}
     try:
@@ -337,7 +342,7 @@ def load_modular(texts, dirs=None, actions=None):
             with open(os.path.join(sub, f + ".pg"), "w") as fh:
                 fh.write(t)
         with pgx.quiet():
-            pg = parglare.Grammar.from_file(os.path.join(d, "root.pg"))
+            pg = parglare.Grammar.from_file(os.path.join(d, "root.pg"), **gkw)
             glr = parglare.GLRParser(pg, **kw)
             lr = None
             # the table cache ignores the parser kind (KF-C12-1, judged by C12): never let it interfere here
@@ -346,7 +351,7 @@ def load_modular(texts, dirs=None, actions=None):
                     if fn.endswith(".pgc"):
                         os.remove(os.path.join(dp, fn))
             try:
-                lr = parglare.Parser(parglare.Grammar.from_file(os.path.join(d, "root.pg")), **kw)
+                lr = parglare.Parser(parglare.Grammar.from_file(os.path.join(d, "root.pg"), **gkw), **kw)
             except (parglare.exceptions.SRConflicts, parglare.exceptions.RRConflicts):
                 pass
         return pg, glr, lr
@@ -360,16 +365,18 @@ def one(ctx):
     kf = "KF-C20-1" if noncanonical_user(m) else None
     texts = file_texts(m)
     g, flat_text, reach, nprods = flatten(m)
-    case0 = {"files": texts, "flat": flat_text, "shape": m["shape"], "dirs": m["dirs"], "actions": "actions" in m["feats"]}
+    case0 = {"files": texts, "flat": flat_text, "shape": m["shape"], "dirs": m["dirs"], "actions": "actions" in m["feats"], "ignore_case": "ignore_case" in m["feats"]}
     try:
         with pgx.watchdog(60):
             akw = {"actions": TAG_ACTIONS} if "actions" in m["feats"] else {}
-            pg, glr, lr = load_modular(texts, m["dirs"], akw.get("actions"))
-            fpg = pgx.grammar(flat_text)
+            ic = "ignore_case" in m["feats"]
+            gkw = {"ignore_case": True} if ic else {}
+            pg, glr, lr = load_modular(texts, m["dirs"], akw.get("actions"), ic)
+            fpg = pgx.grammar(flat_text, **gkw)
             fglr = pgx.glr(fpg, **akw)
             flr = None
             try:
-                flr = pgx.lr(pgx.grammar(flat_text), **akw)
+                flr = pgx.lr(pgx.grammar(flat_text, **gkw), **akw)
             except (parglare.exceptions.SRConflicts, parglare.exceptions.RRConflicts):
                 pass
     except pgx.CaseTimeout:
@@ -382,7 +389,7 @@ def one(ctx):
     ctx.count("grammars")
     ctx.count("shape." + m["shape"])
     for ft in m["feats"]:
-        ctx.count({"alias": "with_alias", "override": "with_override", "nested": "with_nested_reference", "rep": "with_repetition", "empty": "with_explicit_empty", "subdirs": "with_subdirectories", "keyword": "with_keyword", "actions": "with_action_names"}[ft])
+        ctx.count({"alias": "with_alias", "override": "with_override", "nested": "with_nested_reference", "rep": "with_repetition", "empty": "with_explicit_empty", "subdirs": "with_subdirectories", "keyword": "with_keyword", "actions": "with_action_names", "ignore_case": "with_ignore_case"}[ft])
     if (lr is None) != (flr is None):
         ctx.case((str(texts), "lr-build"), True)
         kf2 = kf
@@ -418,11 +425,13 @@ def one(ctx):
     if "keyword" in m["feats"]:
         # keywords must be separated: spaced and unspaced variants
         inputs = inputs[:150] + [" ".join(w) for w in inputs[:250]] + ["".join(ch + rng.choice(["", " "]) for ch in w) for w in inputs[:150]]
+    if ic:
+        inputs = ["".join(ch.upper() if rng.random() < 0.5 else ch for ch in w) for w in inputs]
     for w in inputs:
         case = dict(case0, input=w)
         a = glrobs.parse_glr(glr, w)
         b = glrobs.parse_glr(fglr, w)
-        want = cfg.Chart(g, w, skip=cfg.skip_none).is_sentence() if g is not None else (b.kind == "forest")
+        want = cfg.Chart(g, w, skip=cfg.skip_none, ignore_case=ic).is_sentence() if g is not None else (b.kind == "forest")
         ctx.case((str(texts), w), want or len(w) >= 2, sample={"files": texts, "input": w, "sentence": want})
         ctx.count("inputs.language_compared")
         if a.kind == "exc":
@@ -454,8 +463,8 @@ def replay(case, ctx):
     mon.install()
     try:
         akw = {"actions": TAG_ACTIONS} if case.get("actions") else {}
-        pg, glr, lr = load_modular(case["files"], case.get("dirs"), akw.get("actions"))
-        fglr = pgx.glr(pgx.grammar(case["flat"]), **akw)
+        pg, glr, lr = load_modular(case["files"], case.get("dirs"), akw.get("actions"), case.get("ignore_case", False))
+        fglr = pgx.glr(pgx.grammar(case["flat"], **({"ignore_case": True} if case.get("ignore_case") else {})), **akw)
         if "input" in case:
             a = glrobs.parse_glr(glr, case["input"])
             b = glrobs.parse_glr(fglr, case["input"])
